@@ -174,6 +174,72 @@ def run_coverage(sc: dict[str, Any]) -> dict[str, Any]:
         sim.close()
 
 
+def run_crdmod(sc: dict[str, Any]) -> dict[str, Any]:
+    """CRDs are MODIFIED at run time: a new preferred version appears / goes, a category used by a selector goes / comes back."""
+    import kopf
+    from sim.fakek8s import ResDef
+    from sim.opsim import Sim, Stall
+    G2 = 'g2.example.com'
+    sim = Sim(wall_budget=15)
+    sim.world.max_steps = 300_000
+    try:
+        reg = sim.registry()
+        kopf.on.event('gadgets', registry=reg, id='seeg')(sim.handler('seeg', kind='event'))          # by name: the preferred version
+        kopf.on.event(category='catx', registry=reg, id='seec')(sim.handler('seec', kind='event'))     # by category
+        nsres = sim.srv.find('namespaces')
+        sim.srv.create(nsres, None, 'ns1', {})
+        g1 = sim.srv.add_resource(ResDef(G2, 'v1', 'gadgets', 'Gadget'), announce=True)
+        g2 = ResDef(G2, 'v2', 'gadgets', 'Gadget')
+        gz = sim.srv.add_resource(ResDef('g3.example.com', 'v1', 'gizmos', 'Gizmo', categories=('catx',)), announce=True)     # its own group
+        state = {'v2': False, 'cat': True}
+        op = sim.operator('op1', reg, sim.settings(watching__reconnect_backoff=1), clusterwide=False, namespaces=['ns*'])
+
+        def check():
+            served = [f'gadgets.{"v2" if state["v2"] else "v1"}|ns1'] + (['gizmos.v1|ns1'] if state['cat'] else [])
+            watched = sorted(f'{w.res.plural}.{w.res.version}|{w.ns or "*"}' for w in sim.srv.watches if w.res.group in (G2, 'g3.example.com'))
+            sim.rec('env.check', served=sorted(served), watched=watched)
+
+        def do(opn):
+            if opn == 'v2add' and not state['v2']:
+                sim.srv.resources[g2.key] = g2; sim.srv.log.setdefault(g2.key, []); sim.srv.preferred[G2] = 'v2'; state['v2'] = True
+                sim.srv.touch_crd_object(g1)
+            elif opn == 'v2del' and state['v2']:
+                sim.srv.resources.pop(g2.key, None); sim.srv.preferred.pop(G2, None); state['v2'] = False
+                for w in [w for w in sim.srv.watches if w.res.key == g2.key]: w.end('eof')
+                sim.srv.touch_crd_object(g1)
+            elif opn == 'catdel' and state['cat']:
+                gz.categories = (); state['cat'] = False; sim.srv.touch_crd_object(gz)
+            elif opn == 'catadd' and not state['cat']:
+                gz.categories = ('catx',); state['cat'] = True; sim.srv.touch_crd_object(gz)
+            elif opn == 'check':
+                check()
+        for (t, opn) in sc['env']:
+            sim.world.at(t, (lambda opn=opn: do(opn)), 1)
+        stall = False
+        try:
+            sim.run(sc['end']); check()
+            op.finish()
+        except Stall:
+            stall = True
+        events = [e for e in convert(sim.recorder.events, set()) if e['ev'] == 'check']
+        return {'id': sc['id'], 'events': events, 'stall': stall, 'scenario': sc}
+    finally:
+        sim.close()
+
+
+def gen_crdmod(seed: int, n: int) -> list[dict[str, Any]]:
+    rnd = random.Random(f'crdmod-{seed}')
+    out = [{'id': 'crdmod-crafted', 'env': [(10, 'check'), (12, 'v2add'), (22, 'check'), (24, 'catdel'), (34, 'check'), (36, 'v2del'), (46, 'check'), (48, 'catadd')], 'end': 60}]
+    for i in range(n):
+        env = []; t = 4
+        for _ in range(rnd.randint(1, 6)):
+            t += rnd.choice([1, 2, 4, 9]); env.append((t, rnd.choice(['v2add', 'v2del', 'catdel', 'catadd'])))
+            if rnd.random() < 0.6:
+                t += 9; env.append((t, 'check'))
+        out.append({'id': f'crdmod-{seed}-{i}', 'env': env, 'end': t + 15})
+    return out
+
+
 def gen_continuity(seed: int, n: int) -> list[dict[str, Any]]:
     rnd = random.Random(f'cont-{seed}')
     out = []
@@ -261,7 +327,8 @@ def run(ctx, rep) -> None:
     cont = gen_continuity(ctx.seed, 150 if ctx.quick else 4000)
     cov = gen_coverage(ctx.seed, 60 if ctx.quick else 1500)
     with ProcessPoolExecutor(16) as ex:
-        traces = list(ex.map(run_continuity, cont, chunksize=4)) + list(ex.map(run_coverage, cov, chunksize=2))
+        traces = (list(ex.map(run_continuity, cont, chunksize=4)) + list(ex.map(run_coverage, cov, chunksize=2))
+                  + list(ex.map(run_crdmod, gen_crdmod(ctx.seed, 20 if ctx.quick else 600), chunksize=2)))
     verdicts = judge(traces, rep)
     rep.evaluations += len(traces); rep.traces += len(traces)
     for t in traces:
